@@ -13,7 +13,7 @@ def run(ctx):
     for fs in ctx.featuresets():
         m = ctx.mir(fs)
         res = [D.hash_iteration_rule(m["ts_rs_macros"], "C13"), D.hash_iteration_rule(m["ts_rs"], "C13", rule="C13.R1-runtime"),
-               D.visit_order_rule(m["ts_rs"], "C13"), D.source_order_rule(m["ts_rs_macros"], "C13"), MR.import_union_rule(m["ts_rs"], "C13", rule="C13.R4"), MM.import_shape_rule(m["ts_rs"], "C13", rule="C13.R5"), E.fs_query_owner_rule(m["ts_rs"], "C13", rule="C13.R8")]
+               D.visit_order_rule(m["ts_rs"], "C13"), D.source_order_rule(m["ts_rs_macros"], "C13"), MR.import_union_rule(m["ts_rs"], "C13", rule="C13.R4"), MM.import_shape_rule(m["ts_rs"], "C13", rule="C13.R5"), E.fs_query_owner_rule(m["ts_rs"], "C13", rule="C13.R8"), E.visitor_predicates_rule(m["ts_rs"], "C13", rule="C13.R9")]
         res[0].floor = 5
         for r in res:
             if fs != "default":
